@@ -64,10 +64,13 @@ def _work(job):
         elif kind == "witness":
             tr, conc = davgen.run_witness_session(job["witness"], frontend=job["cfg"][0], prefix=job["cfg"][1],
                                                   backend=job["cfg"][2], principal=(list(job["cfg"]) + ["/user/"])[3],
-                                                  audit_git=(job.get("dev") != "fault-enumeration"))
+                                                  audit_git=(job.get("dev") != "fault-enumeration" and not job.get("gitconf")),
+                                                  gitconf=job.get("gitconf", ""))
         else:
             raise ValueError(kind)
         tr["job"] = {k: v for k, v in job.items() if k not in ("behaviour", "witness")}
+        if "witness" in job:
+            tr["job"]["witness_json"] = json.dumps(job["witness"])     # (a string: it may hold nulls)
         if kind == "model":
             tr["job"]["rqs"] = [st["rq"] for st in job["behaviour"]
                                 if st.get("rq", {}).get("op") not in (None, "Init")]
@@ -281,6 +284,14 @@ def run(prop, tier, seed, replay=None):
     for name, (cfg, steps) in sorted(DIRECTED.items()):
         tid += 1
         jobs.append({"kind": "witness", "witness": steps, "cfg": cfg, "tid": tid, "dev": "directed:" + name})
+    # one ordinary session in a deployment with line-ending conversion configured in git
+    tid += 1
+    jobs.append({"kind": "witness", "cfg": HTTP_CONFIGS[0], "tid": tid, "dev": "directed:autocrlf",
+                 "gitconf": "[core]\n\tautocrlf = input",
+                 "witness": [["mk", "cal1", "calendar"], ["mk", "ab1", "addressbook"], ["put", "cal1", "a.ics", "@model:1"],
+                             ["put", "cal1", "a.ics", "@model:2"], ["put", "ab1", "c.vcf", "@model:5"], ["get", "cal1", "a.ics"],
+                             ["multiget", "cal1", [["live", "a.ics"]]], ["reupload", "cal1", "a.ics"], ["delete", "cal1", "a.ics"],
+                             ["put", "cal1", "b.ics", "@model:3"], ["restart"], ["get", "cal1", "b.ics"]]})
     # the witness history of every listed (open) finding of this cluster, re-run as recorded
     for d, e in sorted(devs.items()):
         if e.get("witness") and e.get("property") == prop:
@@ -535,7 +546,9 @@ def _work_replay(job, r):
                                     prefix=job["cfg"][1], backend=job["cfg"][2],
                                     principal=(list(job["cfg"]) + ["/user/"])[3])
     if job.get("kind") == "witness":
-        return davgen.run_witness_session(job["witness"], frontend=job["cfg"][0], prefix=job["cfg"][1],
+        steps = job.get("witness") or json.loads(job["witness_json"])
+        return davgen.run_witness_session(steps, frontend=job["cfg"][0], prefix=job["cfg"][1],
                                           backend=job["cfg"][2], principal=(list(job["cfg"]) + ["/user/"])[3],
-                                          audit_git=(job.get("dev") != "fault-enumeration"))
+                                          audit_git=(job.get("dev") != "fault-enumeration" and not job.get("gitconf")),
+                                          gitconf=job.get("gitconf", ""))
     return None
